@@ -80,7 +80,27 @@ func autoGovZero() []sdk.Msg {
 }
 
 // AutoCfgs is the static enumeration (message type, field path, boundary value).
-func AutoCfgs() []autoCfg {
+// relCands: valid NON-boundary values — half and double of the value currently stored (numeric fields only)
+func relCands(t reflect.Type) []string {
+	switch {
+	case t == intType, t == decType, t.Kind() == reflect.Int64, t.Kind() == reflect.Uint64, t.Kind() == reflect.Int32, t.Kind() == reflect.Uint32:
+		return []string{"x0.5", "x2"}
+	}
+	return nil
+}
+
+// AutoCfgsRel: the sweep over the same fields with the relative candidates.
+func AutoCfgsRel() []autoCfg {
+	var out []autoCfg
+	for _, a := range autoCfgsWith(relCands) {
+		out = append(out, a)
+	}
+	return out
+}
+
+func AutoCfgs() []autoCfg { return autoCfgsWith(candsFor) }
+
+func autoCfgsWith(candsFor func(reflect.Type) []string) []autoCfg {
 	var out []autoCfg
 	for _, z := range autoGovZero() {
 		url := sdk.MsgTypeURL(z)
@@ -116,6 +136,29 @@ func AutoCfgs() []autoCfg {
 }
 
 func setBoundary(fv reflect.Value, cand string) {
+	if cand == "x0.5" || cand == "x2" {
+		num, den := int64(1), int64(2)
+		if cand == "x2" {
+			num, den = 2, 1
+		}
+		switch {
+		case fv.Type() == intType:
+			v := fv.Interface().(math.Int)
+			if !v.IsNil() {
+				fv.Set(reflect.ValueOf(v.MulRaw(num).QuoRaw(den)))
+			}
+		case fv.Type() == decType:
+			v := fv.Interface().(math.LegacyDec)
+			if !v.IsNil() {
+				fv.Set(reflect.ValueOf(v.MulInt64(num).QuoInt64(den)))
+			}
+		case fv.Kind() == reflect.Int64 || fv.Kind() == reflect.Int32:
+			fv.SetInt(fv.Int() * num / den)
+		case fv.Kind() == reflect.Uint64 || fv.Kind() == reflect.Uint32:
+			fv.SetUint(fv.Uint() * uint64(num) / uint64(den))
+		}
+		return
+	}
 	switch {
 	case fv.Type() == intType:
 		v, _ := math.NewIntFromString(cand)
@@ -184,7 +227,7 @@ func (a autoCfg) gov(w *World) func(ctx sdk.Context) error {
 }
 
 func addAutoCfgOps(l *OpLib) {
-	for _, a := range AutoCfgs() {
+	for _, a := range append(AutoCfgs(), AutoCfgsRel()...) {
 		a := a
 		// cost 2: a deviation budget of 3 admits ONE configuration change per path plus one environment op
 		l.Add(a.Name(), "config", 2, func(w *World, p *BlockPlan) { p.Gov = append(p.Gov, a.gov(w)) })
@@ -205,6 +248,20 @@ func autoCfgOpNamesFor(sub string) []string {
 	for _, a := range AutoCfgs() {
 		if strings.Contains(a.URL, sub) {
 			out = append(out, a.Name())
+		}
+	}
+	return out
+}
+
+// autoCfgAllNamesFor: boundary AND relative candidates of the message types whose URL contains one of subs.
+func autoCfgAllNamesFor(subs ...string) []string {
+	var out []string
+	for _, a := range append(AutoCfgs(), AutoCfgsRel()...) {
+		for _, sub := range subs {
+			if strings.Contains(a.URL, sub) {
+				out = append(out, a.Name())
+				break
+			}
 		}
 	}
 	return out
